@@ -138,4 +138,237 @@ theorem call_is_pathD {G : Type} (step : G → List (Input × InputStatus) → G
   exact ⟨CXStar.step _ _ _ (CXStar.step _ _ _ hp1 hcore) (CXStep.waitRec _ _ _ hw),
     s1, s3, hp1, hc1, (waitRec_fields s3 s4 hwait).1, hform⟩
 
+/-! ### gossip that IS acted upon -/
+
+/-- The cut-off `update_player_disconnects` computes for a player from the running endpoints'
+reports (and, while the player still counts as connected here, the session's own record). -/
+def adoptFrame (a : P2P) (h : Nat) : Frame :=
+  if !(rget a.localConnectStatus h).disconnected then min (P2P.gossipOf a.remotes h).2 (rget a.localConnectStatus h).lastFrame
+  else (P2P.gossipOf a.remotes h).2
+
+/-- Does `update_player_disconnects` call `disconnect_player_at_frame` for this player? -/
+def adopts (a : P2P) (h : Nat) : Bool :=
+  !(P2P.gossipOf a.remotes h).1 &&
+    (!(rget a.localConnectStatus h).disconnected || decide ((rget a.localConnectStatus h).lastFrame > adoptFrame a h))
+
+theorem updIter (a a' : P2P) (now h : Nat)
+    (hi : (do
+      let (queueConnected, queueMin) := P2P.gossipOf a.remotes h
+      let lc := rget a.localConnectStatus h
+      let localConnected := !lc.disconnected
+      let queueMin := if localConnected then min queueMin lc.lastFrame else queueMin
+      if !queueConnected && (localConnected || lc.lastFrame > queueMin) then
+        a.disconnectPlayerAtFrame now h queueMin
+      else pure a : M P2P) = .ok a') :
+    (adopts a h = false ∧ a' = a) ∨ (adopts a h = true ∧ a.disconnectPlayerAtFrame now h (adoptFrame a h) = .ok a') := by
+  unfold adopts adoptFrame
+  cases hg : P2P.gossipOf a.remotes h with
+  | mk qc qm =>
+    rw [hg] at hi
+    simp only at hi ⊢
+    by_cases hc : (!qc && (!(rget a.localConnectStatus h).disconnected ||
+        decide ((rget a.localConnectStatus h).lastFrame >
+          (if (!(rget a.localConnectStatus h).disconnected) = true then min qm (rget a.localConnectStatus h).lastFrame else qm)))) = true
+    · rw [if_pos hc] at hi
+      exact Or.inr ⟨hc, hi⟩
+    · rw [if_neg hc] at hi
+      have := pure_ok hi
+      exact Or.inl ⟨by simpa using hc, this.symm⟩
+
+/-- Every adoption `update_player_disconnects` makes along its walk over the players satisfies the
+premises of the `adopt` step of the world. -/
+inductive UpdOK (now : Nat) : List Nat → P2P → Prop
+  | nil (a : P2P) : UpdOK now [] a
+  | skip (a : P2P) (h : Nat) (hs : List Nat) : adopts a h = false → UpdOK now hs a → UpdOK now (h :: hs) a
+  | adopt (a : P2P) (h : Nat) (hs : List Nat) (addr : Nat) (ep : Endpoint) : adopts a h = true →
+      a.playerType h = some (.remote addr) → P2P.findEp a.remotes addr = some ep →
+      (∀ g, g ∈ ep.handles → g ∉ a.localPlayerHandles) → -1 ≤ adoptFrame a h →
+      (∀ g, g ∈ ep.handles → g < a.sync.queues.length → (rget a.localConnectStatus g).disconnected = false →
+        adoptFrame a h ≤ (rget a.localConnectStatus g).lastFrame) →
+      (∀ g, g < a.sync.queues.length → (rget a.localConnectStatus g).disconnected = true →
+        (rget a.localConnectStatus g).lastFrame ≤ adoptFrame a h) →
+      (∀ a', a.disconnectPlayerAtFrame now h (adoptFrame a h) = .ok a' → UpdOK now hs a') → UpdOK now (h :: hs) a
+
+theorem UpdOK_of_quiet (now : Nat) : ∀ (hs : List Nat) (a : P2P), QuietGossip a → UpdOK now hs a := by
+  intro hs
+  induction hs with
+  | nil => intro a _; exact UpdOK.nil a
+  | cons h rest ih =>
+    intro a hq
+    refine UpdOK.skip a h rest ?_ (ih a hq)
+    unfold adopts adoptFrame
+    rcases hq h with hx | ⟨hd, hle⟩
+    · simp [hx]
+    · simp only [hd, Bool.not_true, Bool.false_eq_true, if_false, Bool.false_or]
+      have : ¬ ((rget a.localConnectStatus h).lastFrame > (P2P.gossipOf a.remotes h).2) := by omega
+      simp [this]
+
+/-- **`update_player_disconnects` is a path of the world**, as long as every adoption it makes is one
+the world allows. -/
+theorem upd_is_path {G : Type} (step : G → List (Input × InputStatus) → G) (csf : G → Option Nat) (now : Nat) (x : GS G) :
+    ∀ (hs : List Nat) (a a' : P2P), UpdOK now hs a →
+    hs.foldlM (fun s handle => do
+      let (queueConnected, queueMin) := P2P.gossipOf s.remotes handle
+      let lc := rget s.localConnectStatus handle
+      let localConnected := !lc.disconnected
+      let queueMin := if localConnected then min queueMin lc.lastFrame else queueMin
+      if !queueConnected && (localConnected || lc.lastFrame > queueMin) then
+        s.disconnectPlayerAtFrame now handle queueMin
+      else pure s) a = .ok a' →
+    CXStar step csf (a, x) (a', x) ∧ a'.sync = a.sync ∧ a'.maxPrediction = a.maxPrediction ∧ a'.sparse = a.sparse := by
+  intro hs
+  induction hs with
+  | nil =>
+    intro a a' _ hf
+    simp only [List.foldlM_nil] at hf
+    have := pure_ok hf; subst this
+    exact ⟨CXStar.refl _, rfl, rfl, rfl⟩
+  | cons h rest ih =>
+    intro a a' hok hf
+    simp only [List.foldlM_cons] at hf
+    obtain ⟨a1, h1, hf⟩ := bind_ok hf
+    rcases updIter a a1 now h h1 with ⟨hno, he⟩ | ⟨hyes, hcall⟩
+    · rw [he] at hf
+      cases hok with
+      | skip _ _ _ _ hrest => exact ih a a' hrest hf
+      | adopt _ _ _ addr ep hy => rw [hno] at hy; cases hy
+    · cases hok with
+      | skip _ _ _ hn _ => rw [hyes] at hn; cases hn
+      | adopt _ _ _ addr ep _ hpt hep hrem hl0 hlow hdead hnext =>
+        obtain ⟨_, _, _, fsync, _, _, _, _, _, fsp, _, _, _, _⟩ := P2P.disconnectAt_fields a a1 now h addr _ ep hpt hep hcall
+        have hmp : a1.maxPrediction = a.maxPrediction := by
+          -- disconnect_player_at_frame does not touch the configuration
+          unfold P2P.disconnectPlayerAtFrame at hcall
+          rw [hpt] at hcall
+          simp only [hep, bind, Except.bind, pure, Except.pure] at hcall
+          cases hupd : P2P.updEp (List.foldl (fun s h => s.setStatus h fun c => { c with disconnected := true }) a ep.handles).remotes addr
+              (fun e => Except.ok (e.disconnect now)) with
+          | error e => rw [hupd] at hcall; cases hcall
+          | ok remotes =>
+            rw [hupd] at hcall
+            simp only at hcall
+            cases hcall
+            have hm : ∀ (l : List Nat) (b : P2P), (l.foldl (fun s h => s.setStatus h fun c => { c with disconnected := true }) b).maxPrediction = b.maxPrediction := by
+              intro l
+              induction l with
+              | nil => intro b; rfl
+              | cons y ys ihh => intro b; simp only [List.foldl_cons]; rw [ihh]; rfl
+            have hci : ∀ (b : P2P), b.checkInitialSync.maxPrediction = b.maxPrediction := by
+              intro b; unfold P2P.checkInitialSync; split
+              · rfl
+              · split <;> rfl
+            rw [hci]
+            split <;> exact hm _ _
+        obtain ⟨hpath, hs2, hm2, hsp2⟩ := ih a1 a' (hnext a1 hcall) hf
+        have hstep : CXStep step csf (a, x) (a1, x) :=
+          CXStep.net a a1 x (XStep.adopt a a1 ⟨x.cur, x.R⟩ now h addr ep _ hpt hep hrem hl0 hlow hdead hcall)
+            (by rw [fsync]) fsp (by rw [fsync]) (by rw [fsync])
+        exact ⟨CXStar.trans (CXStar.step _ _ _ (CXStar.refl _) hstep) hpath, hs2.trans fsync, hm2.trans hmp, hsp2.trans fsp⟩
+
+/-- **The entry point is a path of the world with drops, gossip included.** A successful rollback-mode
+`advance_frame_core` call is: desync bookkeeping, then — `update_player_disconnects` — one `adopt`
+step per cut-off adopted from the other peers' reports, then the call's core, then the wait
+recommendation; provided every adoption is one the world allows (`UpdOK`: in particular no cut-off
+earlier than the last frame of a player that is already marked — the known finding of C10), and
+on the very first call (frame 0, where the extra save sits between the two) none is made. -/
+theorem call_is_pathG {G : Type} (step : G → List (Input × InputStatus) → G) (csf : G → Option Nat)
+    (s s' : P2P) (x : GS G) (now : Nat) (reqs' : List Request)
+    (hmp : (s.maxPrediction == 0) = false)
+    (hng : ∀ s1, s.desyncPhase now = .ok s1 →
+      (s1.sync.currentFrame = 0 → QuietGossip s1) ∧ UpdOK now (List.range s1.numPlayers) s1)
+    (hcall : s.advanceFrameCore now = .ok (s', .ok reqs')) :
+    CXStar step csf (s, x)
+      (s'.userExecute (gameSaves step csf s.sync.cells.length x reqs'), execGs step s.sync.cells.length x reqs') ∧
+    ∃ sm s3 : P2P, CXStar step csf (s, x) (sm, x) ∧ sm.sync.cells.length = s.sync.cells.length ∧ P2P.SameCore s3 s' ∧
+      (sm.advanceRollbackFrame now [] = .ok (s3, reqs') ∨
+       ∃ sy r, sm.sync.currentFrame = 0 ∧ sm.sync.saveCurrentState = .ok (sy, r) ∧
+         ({ sm with sync := sy } : P2P).advanceRollbackFrame now [r] = .ok (s3, reqs')) := by
+  unfold P2P.advanceFrameCore at hcall
+  by_cases hrun : (!s.running) = true
+  · rw [if_pos hrun] at hcall
+    have := pure_ok hcall
+    simp only [Prod.mk.injEq] at this
+    cases this.2
+  rw [if_neg hrun] at hcall
+  by_cases hin : (!(s.localPlayerHandles.all fun h => s.pendingLocalInputs.any (·.1 == h))) = true
+  · rw [if_pos hin] at hcall
+    have := pure_ok hcall
+    simp only [Prod.mk.injEq] at this
+    cases this.2
+  rw [if_neg hin] at hcall
+  obtain ⟨s1, hdes, hcall⟩ := bind_ok hcall
+  obtain ⟨r2, hfs, hcall⟩ := bind_ok hcall
+  obtain ⟨s2, reqs0⟩ := r2
+  simp only at hcall
+  obtain ⟨s2', hupd, hcall⟩ := bind_ok hcall
+  obtain ⟨r3, hadv, hcall⟩ := bind_ok hcall
+  obtain ⟨s3, reqs3⟩ := r3
+  simp only at hcall
+  obtain ⟨s4, hwait, hcall⟩ := bind_ok hcall
+  have := pure_ok hcall
+  simp only [Prod.mk.injEq, Except.ok.injEq] at this
+  obtain ⟨hs4, hreqs⟩ := this
+  subst hs4; subst hreqs
+  have hpath1 : CXStar step csf (s, x) (s1, x) ∧ P2P.SameCore s s1 := by
+    unfold P2P.desyncPhase at hdes
+    split at hdes
+    · obtain ⟨sr, hrep, hdes⟩ := bind_ok hdes
+      have := pure_ok hdes
+      subst this
+      refine ⟨CXStar.step _ _ _ (CXStar.step _ _ _ (CXStar.refl _) (CXStep.report s sr x now hrep)) (CXStep.compare sr x), ?_⟩
+      exact (report_fields s sr now hrep).1.trans (compare_fields sr).1
+    · have := pure_ok hdes
+      subst this
+      exact ⟨CXStar.refl _, P2P.SameCore.refl s⟩
+  obtain ⟨hp1, hc1⟩ := hpath1
+  have hmp1 : (s1.maxPrediction == 0) = false := by rw [hc1.maxPrediction]; exact hmp
+  obtain ⟨hq0, hok1⟩ := hng s1 hdes
+  have hn1 : s1.sync.cells.length = s.sync.cells.length := by rw [hc1.sync]
+  unfold P2P.firstSavePhase at hfs
+  by_cases hfirst : (s1.sync.currentFrame == 0 && !(s1.maxPrediction == 0)) = true
+  · -- the very first call: no adoption
+    rw [if_pos hfirst] at hfs
+    obtain ⟨r, hsv, hfs⟩ := bind_ok hfs
+    obtain ⟨sy, rq⟩ := r
+    simp only at hfs
+    have := pure_ok hfs
+    simp only [Prod.mk.injEq] at this
+    obtain ⟨e1, e2⟩ := this
+    subst e1; subst e2
+    have hc0 : s1.sync.currentFrame = 0 := by
+      simp only [Bool.and_eq_true, beq_iff_eq] at hfirst; exact hfirst.1
+    have hng2 : QuietGossip ({ s1 with sync := sy } : P2P) := hq0 hc0
+    rw [updatePlayerDisconnects_quiet _ now hng2] at hupd
+    have := pure_ok hupd
+    subst this
+    unfold P2P.advanceByMode at hadv
+    have hmp2 : (({ s1 with sync := sy } : P2P).maxPrediction == 0) = false := hmp1
+    rw [if_neg (by rw [hmp2]; simp)] at hadv
+    have hcore : CXStep step csf (s1, x)
+        (s3.userExecute (gameSaves step csf s1.sync.cells.length x reqs3), execGs step s1.sync.cells.length x reqs3) :=
+      CXStep.tick0 s1 s3 x now sy rq reqs3 hc0 hsv hadv
+    rw [hn1] at hcore
+    have hw := waitRec_userExecute s3 s4 (gameSaves step csf s.sync.cells.length x reqs3) hwait
+    exact ⟨CXStar.step _ _ _ (CXStar.step _ _ _ hp1 hcore) (CXStep.waitRec _ _ _ hw),
+      s1, s3, hp1, hn1, (waitRec_fields s3 s4 hwait).1, Or.inr ⟨sy, rq, hc0, hsv, hadv⟩⟩
+  · rw [if_neg hfirst] at hfs
+    have := pure_ok hfs
+    simp only [Prod.mk.injEq] at this
+    obtain ⟨e1, e2⟩ := this
+    subst e1; subst e2
+    unfold P2P.updatePlayerDisconnects at hupd
+    obtain ⟨hp2, hsy2, hm2, _⟩ := upd_is_path step csf now x _ s1 s2' hok1 hupd
+    unfold P2P.advanceByMode at hadv
+    have hmp2 : (s2'.maxPrediction == 0) = false := by rw [hm2]; exact hmp1
+    rw [if_neg (by rw [hmp2]; simp)] at hadv
+    have hn2 : s2'.sync.cells.length = s.sync.cells.length := by rw [hsy2]; exact hn1
+    have hcore : CXStep step csf (s2', x)
+        (s3.userExecute (gameSaves step csf s2'.sync.cells.length x reqs3), execGs step s2'.sync.cells.length x reqs3) :=
+      CXStep.tick s2' s3 x now reqs3 hadv
+    rw [hn2] at hcore
+    have hw := waitRec_userExecute s3 s4 (gameSaves step csf s.sync.cells.length x reqs3) hwait
+    have hpm : CXStar step csf (s, x) (s2', x) := CXStar.trans hp1 hp2
+    exact ⟨CXStar.step _ _ _ (CXStar.step _ _ _ hpm hcore) (CXStep.waitRec _ _ _ hw),
+      s2', s3, hpm, hn2, (waitRec_fields s3 s4 hwait).1, Or.inl hadv⟩
+
 end Ggrs
